@@ -74,6 +74,10 @@ class DBusProperty:
         instance._dbusProperties[self.key] = value
 
         if self.iprop.emits == 'true':
+            # encode the value as the declared type, as Get/GetAll do
+            if self.iprop.sig in marshal.variantClassMap:
+                value = marshal.variantClassMap[self.iprop.sig](value)
+
             instance.emitSignal(
                 'PropertiesChanged',
                 self.interface,
